@@ -1,10 +1,12 @@
 #!/bin/bash
-# re-verifies every kept seeded change against a snapshot: at least one of the checks named in meta.json
-# must report a VIOLATION (all of them are run)
+# re-verifies kept seeded changes against a snapshot: at least one of the checks named in meta.json
+# must report a VIOLATION (all of them are run).
+# usage: seeded_selftest.sh [names...]      (default: all; SV=<dir> selects the snapshot lane, see seedtest.sh)
 cd /verif
 fail=0
-for d in seeded/*/; do
-  n=$(basename $d)
+if [ $# -gt 0 ]; then list="$@"; else list=$(ls seeded); fi
+for n in $list; do
+  d=seeded/$n/
   checks=$(python3 -c "import json;print(' '.join(json.load(open('$d/meta.json'))['checks']))")
   out=$(tools/seedtest.sh /verif/$d $checks 2>&1)
   hit=$(echo "$out" | grep -E "^check C[0-9]+ exit=1  [1-9]" | awk '{print $2}' | tr '\n' ' ')
